@@ -135,7 +135,7 @@ def duplicate_case(draw):
             # a later step of the same flow that edits rows in place (top-level and nested values): the copy is
             # 'an exact copy of the chosen resource' as of the duplicate step, so it receives the edit exactly once
             # ... or a later step that edits the schema of only the original / only the copy
-            'follow': draw(st.sampled_from([None, None, 'inplace', 'delete_in_original', 'delete_in_copy']))}
+            'follow': draw(st.sampled_from([None, None, 'inplace', 'delete_in_original', 'delete_in_copy', 'head']))}
 
 
 @st.composite
@@ -267,8 +267,10 @@ def check(case, ctx):
     names = [r['name'] for r in pkg]
     desc = gen.descriptor_of(pkg)
     tables = gen.tables_of(pkg)
+    in_tables = tables
     classes = [op]
     reject = None
+    head_follow = False
     schema_edit = None
     big = any(len(r['rows']) > 1000 for r in pkg)
     if op == 'concat':
@@ -321,6 +323,17 @@ def check(case, ctx):
                 exp_rows[wi] = [{k: v for k, v in r.items() if k != victim[-1]} for r in exp_rows[wi]]
                 classes.append('dup:followed-by-schema-edit-of-one-twin')
                 schema_edit = (wi, victim[-1])
+        elif case.get('follow') == 'head':
+            # a later step reads only the first row of every resource: the copy is still a copy of the whole resource
+            def first_row_only(rows):
+                for r in rows:
+                    yield r
+                    return
+            steps.append(first_row_only)
+            exp_rows = [t[:1] for t in exp_rows]
+            tables = [t[:1] for t in tables]          # (for the conservation count below)
+            classes.append('dup:followed-by-an-early-stopping-step')
+            head_follow = True
         elif case.get('follow'):
             steps.append(inplace_edit)
             exp_rows = [copy.deepcopy(t) for t in exp_rows]   # (one deepcopy call would keep the copy aliased)
@@ -388,7 +401,9 @@ def check(case, ctx):
             exp_rows = tables + [n['rows'] for n in new]
     try:
         with quiet():
-            ds = Flow(*steps).datastream(feed(desc, tables, sequential=case.get('seq', False)))
+            # (an early-stopping step is only meaningful over sources that can be read independently of each other:
+            # the harness' one-stream emulation has no notion of skipping)
+            ds = Flow(*steps).datastream(feed(desc, in_tables, sequential=case.get('seq', False) and not head_follow))
             out_desc, out_rows, _ = materialise(ds)
     except Exception as e:
         rc = root_cause(e)
